@@ -329,6 +329,13 @@ func makingslash(vs *ValidatorStore, evidences []types.Evidence) []Validator {
 }
 
 func (vs *ValidatorStore) HandleUnstake(unstake Unstake, height int64) error {
+	return vs.handleUnstake(unstake, height, true)
+}
+
+// handleUnstake lowers the stake of the validator record. The two block rule after a purge
+// holds for unstake transactions; the postponed part of a slash is applied in any case, because
+// the locked amounts have already been lowered and there is no second attempt
+func (vs *ValidatorStore) handleUnstake(unstake Unstake, height int64, purgeRule bool) error {
 	validator := &Validator{}
 
 	validator, err := vs.Get(unstake.Address)
@@ -344,7 +351,7 @@ func (vs *ValidatorStore) HandleUnstake(unstake Unstake, height int64) error {
 	if err != nil {
 		return errors.New("failed to get last purge height")
 	}
-	if purgeHeight > 0 && purgeHeight+2 > height {
+	if purgeRule && purgeHeight > 0 && purgeHeight+2 > height {
 		return errors.New("not allowed to unstake within 2 blocks after unstake")
 	}
 	err = vs.set(*validator)
